@@ -56,10 +56,9 @@ package model
 //@ func (*OperationID).SyncLamport
 //@   mode bv
 //@   props C15
-//@   requires its.Lamport < 9223372036854775808 && other < 9223372036854775808
-//@   ensures[ge-other]  its.Lamport >= other
-//@   ensures[ge-old]    its.Lamport >= old(its.Lamport)
-//@   ensures[strict]    its.Lamport > old(its.Lamport) || its.Lamport == other
+//@   ensures[ge-other]  old(its.Lamport) < 9223372036854775808 && other < 9223372036854775808 ==> its.Lamport >= other
+//@   ensures[ge-old]    old(its.Lamport) < 9223372036854775808 && other < 9223372036854775808 ==> its.Lamport >= old(its.Lamport)
+//@   ensures[strict]    old(its.Lamport) < 9223372036854775808 && other < 9223372036854775808 ==> its.Lamport > old(its.Lamport) || its.Lamport == other
 //@   ensures[exact]     its.Lamport == (old(its.Lamport) < other ? other : old(its.Lamport) + 1)
 //@   ensures[result]    result == its.Lamport
 //@   ensures[others]    forall p *OperationID :: p != its ==> p.Lamport == old(p.Lamport)
